@@ -602,6 +602,19 @@ theorem printNative_ok (args : List Val) (d : Nat) :
   · exact ⟨fun v hv => (by cases hv), fun s hs => (by cases hs)⟩
   · exact ⟨fun v hv => (by cases hv), fun s hs => (by cases hs)⟩
 
+theorem noNested_functionParams {r p : Val} (hr : noNested r = true) (hp : noNested p = true) :
+    noNested (functionParams r p) = true := by
+  unfold functionParams
+  rw [noNested_ofList, List.all_append, Bool.and_eq_true]
+  constructor
+  · cases hl : listToVec p with
+    | none => simp
+    | some xs =>
+      simp only [Option.getD_some, List.all_eq_true]
+      intro x hx
+      exact noNested_listToVec hp hl x hx
+  · cases r <;> simp_all [Val.restParam?, Val.symName, noNested]
+
 @[simp] theorem noNested_ofList_symNames (ns : List Name) : noNested (.ofList (ns.map Val.symName)) = true := by
   simp
 
@@ -768,7 +781,7 @@ theorem simpleNative_wf (id : NativeId) (args : List Val) (d : Nat) (st : St)
     split
     · have := noNested_of_get_eq hf ‹_›
       simp only [noNested_fn, Bool.and_eq_true] at this
-      exact WFOut.ok hst (by simp [this])
+      exact WFOut.ok hst (by simp [this, noNested_functionParams this.1.1.1 this.1.1.2])
     · exact WFOut.ok hst (by simp)
     · exact WFOut.err hst (by simpa using hf)
   case typeOf =>
